@@ -34,8 +34,12 @@ def split(args: Sequence[str]) -> tuple[Sequence[str], Sequence[str]]:
         if a in ["-m", "--module"]:
             i = min(i + 1, len(args) - 1)
             break
+        elif a.startswith("--module=") or a.startswith("-m"):
+            # --module=MODULE and -mMODULE carry the module name themselves
+            break
         elif a.startswith("-"):
-            in_flag = True
+            # --opt=VALUE and -oVALUE carry their value themselves, --opt VALUE and -o VALUE don't
+            in_flag = "=" not in a if a.startswith("--") else len(a) == 2
         elif not in_flag:
             break
         else:
